@@ -10,7 +10,7 @@ ID = "C12"
 LEAN_MODULE = "BibVerif.Props.C12"
 TECHNIQUE = ("Lean 4 proof: invariant of the six-step machine (a fold over the characters) with a ghost "
              "decomposition pieces/separators; differential correspondence model vs names.py")
-RULE = ("corpus (D7 witnesses, the repo's own co-author test inputs); every string of <= k tokens over "
+RULE = ("multi-line name fields parsed through parse_string with SeparateCoAuthors appended; entries holding the same name field twice; corpus (D7 witnesses, the repo's own co-author test inputs); every string of <= k tokens over "
         "{A, and, AND, And, an, d, space, tab, newline, ~, {, }, \\x, \\ (lone), ','} (k=5 quick: exhaustive for that "
         "alphabet; k=6 thorough); every string of <= 6 (thorough 7) tokens over the coarser alphabet {A, ' and ', space, {, }, "
         "\\{, \\}, '\\ ', \\} (escaped braces inside groups followed by separators); every string of <= 5 tokens over {U+0130, sharp s, fi ligature, A, ' and ', space, lone CR, NBSP, CRLF}; random long author lists (2-40 names, mixed separators, braces, escapes, non-ASCII); "
